@@ -79,6 +79,11 @@ def _own_consts(u, b, hist, depth, dev, nobj=2, nvar=3):
             "Dev": _set(dev)}
 
 
+OWN_SHAPES2 = {
+    # two-variable shapes, enumerated one operation deeper (thorough tier)
+    "shared2": ([], []),                   # a,b shared_ptr<Derived>
+    "mixed-us2": (["a"], ["b"]),           # a unique_ptr<Derived>, b shared_ptr<Base>
+}
 OWN_SHAPES = {
     # name: (unique_ptr variables, Base-typed variables)
     "shared": ([], ["c"]),                 # a,b shared_ptr<Derived>, c shared_ptr<Base>
@@ -93,7 +98,7 @@ class Ownership(Machine):
     key = "own"
     actions = ["CtorDefault", "CtorNew", "CtorAdopt", "CtorCopy", "CtorMove", "AssignCopy", "AssignMove",
                "AssignMoveSelf", "AssignNull", "Reset", "ResetNew", "ResetAdopt", "Release", "RawDelete", "Swap",
-               "ScopeExit"]
+               "ScopeExit", "AssignCopySelfDev"]
     witnesses = {
         "shared": ["SelfCopySole", "SelfCopyNullCB", "SelfCopyShared", "SelfMove", "SelfSwap", "LastOwnerExit",
                    "NotLastExit", "AssignKills", "ConvDerivedBase"],
@@ -106,9 +111,13 @@ class Ownership(Machine):
         runs = []
         nobj = 3 if ctx.tier == "thorough" else 2
         for name, (u, b) in OWN_SHAPES.items():
-            runs.append(("ideal " + name, _own_consts(u, b, False, 0, [], nobj), ["TypeOK", "Property"], True))
+            # as-implemented (Dev = every modelled deviation): every state either satisfies the property or was
+            # reached through a named deviation (which is terminal), so the states with devUsed = {} are exactly
+            # the ideal machine's and IdealHolds is the Dev = {} result; thorough also runs Dev = {} literally
             runs.append(("as-implemented " + name, _own_consts(u, b, False, 0, ALL_DEVS, nobj),
-                         ["TypeOK", "PropertyOrDev"], False))
+                         ["TypeOK", "PropertyOrDev", "IdealHolds"], True))
+            if ctx.tier == "thorough":
+                runs.append(("ideal " + name, _own_consts(u, b, False, 0, [], nobj), ["TypeOK", "Property"], False))
         return runs
 
     def gens(self, ctx):
@@ -116,14 +125,17 @@ class Ownership(Machine):
         thorough = ctx.tier == "thorough"
         for name, (u, b) in OWN_SHAPES.items():
             cfgrec = {"nvar": 3, "nobj": 2, "u": u, "b": b, "shape": name}
-            depth = 4
-            if thorough and name in ("shared",):
-                depth = 5
+            depth = 4 if (thorough or name != "mixed2") else 3
             out.append(dict(name=name, consts=_own_consts(u, b, True, depth, ALL_DEVS), cfgrec=cfgrec, depth=depth,
                             sim=dict(num=1500 if thorough else 250, depth=9,
                                      consts=_own_consts(u, b, True, 9, ALL_DEVS, nobj=3),
                                      cfgrec=dict(cfgrec, nobj=3)),
                             wit=self.witnesses.get(name, [])))
+        if thorough:
+            for name, (u, b) in OWN_SHAPES2.items():
+                cfgrec = {"nvar": 2, "nobj": 2, "u": u, "b": b, "shape": name}
+                out.append(dict(name=name, consts=_own_consts(u, b, True, 5, ALL_DEVS, nvar=2), cfgrec=cfgrec, depth=5,
+                                sim=None, wit=["SelfCopySole", "SelfMove", "LastOwnerExit"], ninst=3))
         return out
 
     def beh(self, b, cfgrec):
@@ -153,12 +165,13 @@ class StringView(Machine):
             # every pair of strings of length <= 3 with the complete observer suite
             dict(name="pairs", consts=self._c(3, True, 0, False, 3), cfgrec=rec, depth=0, sim=None, wit=[]),
             # every substr(pos, n) of every string (the result is a view into the middle of a buffer)
-            dict(name="substr1", consts=self._c(3, True, 1, False, 1), cfgrec=rec, depth=1,
-                 sim=dict(num=3000 if thorough else 400, depth=5, consts=self._c(3, True, 4, False, 3), cfgrec=rec),
+            dict(name="substr1", consts=self._c(3, True, 1, False, 1 if thorough else 0), cfgrec=rec, depth=1,
+                 sim=dict(num=3000 if thorough else 400, depth=5, consts=self._c(3, True, 4, False, 1), cfgrec=rec),
                  wit=["ThrowAtEndPlus1", "SubstrAtEnd", "NulFirstInWindow", "WholeOfEmpty", "BigPosThrows"]),
         ]
         if thorough:
-            out.append(dict(name="substr2", consts=self._c(3, True, 2, False, 0), cfgrec=rec, depth=2, sim=None, wit=[]))
+            out.append(dict(name="substr2", consts=self._c(3, True, 2, False, 0), cfgrec=rec, depth=2, sim=None, wit=[],
+                            ninst=2))
         return out
 
     def beh(self, b, cfgrec):
@@ -279,7 +292,13 @@ def gen_job(ctx, m, g):
             raise Broken("vacuity: rare condition %s of %s (%s) is not in the enumerated behaviours" % (w, m.module, g["name"]))
     with _LOCK:
         ctx.extra.setdefault("rare_conditions_in_replay_set", {})["%s.%s" % (m.key, g["name"])] = sorted(found)
-    return [(m.beh(b, g["cfgrec"]), "%s:all-depth-%d" % (g["name"], g["depth"])) for b in out]
+    res = []
+    for b in out:
+        rec = m.beh(b, g["cfgrec"])
+        if g.get("ninst"):
+            rec["ninst"] = g["ninst"]
+        res.append((rec, "%s:all-depth-%d" % (g["name"], g["depth"])))
+    return res
 
 
 def sim_job(ctx, m, g):
@@ -373,7 +392,13 @@ def run_harness(ctx, exe, behs, ninst, tag, shards=4):
         os.unlink(path)
     log("replayed %-8s %6d behaviours x %d concretisations, %8d steps compared, %5d forks, %.1fs" % (
         tag, len(behs), ninst, summ.get("steps", 0), summ.get("forks", 0), time.time() - t0))
-    if summ.get("behaviours") != len(behs):
+    if summ.get("aborted"):
+        # a shard stops after 150 unexplained mismatches/crashes: the run has failed, the rest would only cost time
+        if not any(x.get("r") in ("mismatch", "crash", "stdspec", "harness") for x in recs):
+            raise Broken("replay harness stopped early without reporting a failure (%s)" % tag)
+        ctx.extra["replay_stopped_early_after_failures"] = True
+        ctx.exhaustive = False
+    elif summ.get("behaviours") != len(behs):
         raise Broken("replay harness replayed %s of %d behaviours (%s)" % (summ.get("behaviours"), len(behs), tag))
     return recs, summ
 
@@ -397,9 +422,6 @@ def classify(ctx, recs, by_id, ninst):
             ctx.violation("%s: %s" % (where, x.get("what")), replay)
         elif kind == "dev":
             ctx.deviation(x["dev"], "%s: %s" % (where, x.get("what")), replay)
-        elif kind == "alt":
-            a = ctx.extra.setdefault("dont_care_outcomes_taken", {})
-            a[x.get("took", "?")] = a.get(x.get("took", "?"), 0) + 1
         elif kind in ("stdspec", "harness"):
             broken.append("%s: %s: %s" % (kind, where, json.dumps(x)[:1500]))
         else:
@@ -472,7 +494,7 @@ def run(ctx):
     totals = {}
     for binary in ("main", "span"):
         behs = [b for m in MACHINES if m.binary == binary for b in all_behs[m.key]]
-        recs, summ = run_harness(ctx, exes[binary], behs, ninst, binary, shards=4)
+        recs, summ = run_harness(ctx, exes[binary], behs, ninst, binary, shards=8)
         for k, v in summ.items():
             totals[k] = totals.get(k, 0) + v
         broken += classify(ctx, recs, by_id, ninst)
